@@ -25,7 +25,11 @@ CHECKS = {
                   "publish.written / publish.rolled / delete.found / delete.synced / delete.rewritten of a held call on 1-4 segment logs - "
                   "the implementation's outcome (results of all calls, live messages, NextOffset) must be among the outcomes the extracted "
                   "model allows for that placement (unique for 70%); plus ~3000 placements and free-running 2-8 goroutine mixes under "
-                  "-race whose recorded histories are checked for linearizability (porcupine) as supporting search.",
+                  "-race whose recorded histories are checked for linearizability (porcupine) as supporting search - the calls are Publish, Consume, "
+                  "Get, Delete, NextOffset, Sync, GC, Stat, GetByTime, GetByKey and ConsumeByKey, each with its sequential specification "
+                  "(Stat: must not fail); and stress workloads in which no call may fail or hang: the start of a log's life, readers "
+                  "against GC, tailing consumers with a Stat/NextOffset/GC loop, lookups by time and key against a publisher and a "
+                  "deleter, the first use of segments without index files by eight goroutines at once.",
              ref='6/C08', technique='Coq proof (inductive invariant of a small-step model of the lock protocol; linearizability by refinement, all interleavings) + pause-point placements on the real log',
              note="Data-race freedom of the Go code is not a theorem: it is checked by the race detector on the concurrent runs. "
                   "Reader-internal synchronisation (lazy load/unload, GC) and Stat are outside the model. " + COMMON_NOTE),
@@ -138,8 +142,10 @@ CHECKS = {
                   "for ANY bytes in the log file, any or no index file, stale temporary files, any number of completed steps and any "
                   "part of an append in flight, running Recover on what the crash left gives the same log file as the uninterrupted "
                   "Recover and an index that is the same or absent, and the segment passes Check (recover_restartable); run to its end "
-                  "the program leaves exactly what Codec.recover_bytes computes. NOT proved: the step order of "
-                  "Migrate's temporary files - decided by the crash harness only. Tied to /repo by "
+                  "the program leaves exactly what Codec.recover_bytes computes. (5) Migrate of a segment (migrate_prog: remove the index, "
+                  "re-encode into <log>.migrate, rename, index.Write; bytes and steps compared with the real Segment.Migrate): for a "
+                  "clean segment, after any k steps and any part of an append in flight the segment passes Check and its log is the "
+                  "encoding of exactly the same messages, in the old or the new version (migrate_crash_safe). Tied to /repo by "
                   "the FS tap (tag verif): 40+ workloads (publish batches with rollover, all delete shapes, reopen with Recover, migrate), "
                   "the file-system steps of every Delete and every Publish compared with the programs CrashDir.delete_prog / publish_prog compute, a directory "
                   "image after every file-system step plus torn variants of every append; each image is opened with Recover on the "
@@ -147,8 +153,8 @@ CHECKS = {
                   "(published-and-not-deleted, prefix of in-flight batch, delete all-or-nothing), views agree, NextOffset monotone, "
                   "second Recover identical, append + Check + recover again. Known findings F6 and F14; five other defects were fixed.",
              ref='6/C05', technique='Coq proof (torn-append recovery on bytes; crash-safety of the swap programs on the directory) + exhaustive crash-image enumeration through an FS tap',
-             note="Migrate's temporary-file protocol is explored by enumeration of the implementation's own FS "
-                  "events (every step, every torn append) on a finite set of workloads, not proved. " + COMMON_NOTE),
+             note="The byte-level theorems are about one segment; that the directory-level and the byte-level statements compose over a "
+                  "whole multi-segment directory is exercised by the crash harness (every FS step of 45+ workloads), not proved. " + COMMON_NOTE),
  'C06': dict(text="Partial. Proved (Coq): a clean log file cut at ANY byte at or after its header (what a power loss leaves when it keeps a "
                   "prefix at least as long as the fsynced length) is recovered to exactly the records lying entirely below the cut: a prefix "
                   "of what was written, containing every record below the synced length; the result is clean (Check passes, Recover "
@@ -157,8 +163,11 @@ CHECKS = {
                   "sealed segment is entirely on stable storage at all times (the retiring head's log and index are fsynced before the "
                   "new head exists); when Sync or Close returns, or a Publish on a log opened with AutoSync, every file is; and after "
                   "ANY later steps a power loss (each file cut to any length between its fsynced length and its length) leaves of every "
-                  "file at least the bytes it had when that Sync returned. NOT proved: the fsync calls of delete-by-rewrite, Recover and "
-                  "Migrate (observed through the tap only). Tied to /repo by comparing the write / fsync / create events of every Publish, "
+                  "file at least the bytes it had when that Sync returned. During Recover, Migrate and index.Write (their programs of file-system steps, fsyncs included, in "
+                  "RecoverCrash.v) the segment's log and index files are durable after EVERY step - both only write to temporary "
+                  "files, fsync them and rename them into place (live_durable theorems) - so a power loss inside them leaves one of the "
+                  "crash images of the C05 theorems, never a torn live file. NOT proved: the fsync calls of delete-by-rewrite "
+                  "(observed through the tap only). Tied to /repo by comparing the write / fsync / create events of every Publish, "
                   "Sync and Close with the steps Durable.v computes, and by power-loss images synthesized from the tap: every file cut to its "
                   "fsynced length (and to every length between that and its current length at record granularity), unsynced creates/renames "
                   "dropped per directory-fsync; each image recovered on implementation and model; oracle: every live message below the last "
@@ -195,7 +204,9 @@ CHECKS = {
                   "the C03/C04/C09 theorems Consume, Get and key lookups answer identically (time lookups: C10); the lazy rebuild returns "
                   "the derived index. Tied to /repo by seeded histories: segment.Check on every segment of every closed directory "
                   "(monotone times), and twin sessions with and without index files whose query answers (Consume, Get, key/time "
-                  "lookups, Stat) are compared line by line and with the extracted model.",
+                  "lookups, Stat) are compared line by line and with the extracted model; an index that lags its log (idxcut) must be "
+                  "repaired by Open with Recover; and the first queries of eight goroutines at once on a reopened log without index "
+                  "files must all succeed and leave index files that pass Check (creindex).",
              ref='6/C11', technique='Coq proof (exact-index invariant over histories, index removal, reopen) + differential correspondence'),
  'C17': dict(text="Proof (Coq): Migrate of a closed directory preserves every message and NextOffset, leaves every segment in the requested "
                   "version, and a second Migrate is the identity; Open with EagerVersionMigrate (and every other mode) of a directory whose "
@@ -205,7 +216,11 @@ CHECKS = {
                   "mixed-version logs behave like single-version ones. Tied to /repo by seeded histories mixing V1/V2 publishes, deletes with "
                   "both KeepRewriteVersion settings, Migrate and eager opens: all results compared with the extracted model, every C01-C04, "
                   "C09, C10, C12 checker evaluated on them, and the version byte of every segment file after Migrate / rewrite / rollover "
-                  "checked, as well as byte-identical listings after a second Migrate.",
+                  "checked, as well as byte-identical listings after a second Migrate. One segment at the byte level (RecoverCrash.migrate_prog, "
+                  "tied to Segment.Migrate by comparing bytes and file-system steps on encoder-written segments): run to its end the program "
+                  "leaves the log in the requested version holding the same messages and the index derived from it "
+                  "(C17_segment_migrate_result); interrupted after any step the segment still passes Check with the same messages "
+                  "(C17_migrate_crash_safe); the migrated files must equal what the independent encoder writes for the target version.",
              ref='6/C17', technique='Coq proof (migration/open/rewrite preserve the abstract log; idempotence) + differential correspondence'),
  'C12': dict(text="Proof (Coq): in every state satisfying Inv, for every offset set and every hash function, a successful Delete of the model "
                   "reports exactly the requested records of the segment holding the smallest requested offset (full content), the abstract "
